@@ -62,3 +62,30 @@ for sid,(prop,what,needs,ran,checks) in M2.items():
           "result":ran,"caught_by":checks}
     json.dump(meta, open(d+'/meta.json','w'), indent=1)
 print(len(M2))
+
+M3 = {
+ "C11b": ("C11", "IR-level fold merges the << and >> branches and masks the left operand: >> on a negative constant becomes a logical shift", "`>>` folded by the IR optimiser (constant behind a projection or passed as a Signal parameter) with a negative left operand and shift 1..31", "C11 quick missed at first (IR-level stratum had no >>, random signs); after enumerating all 11 operators x negative/positive x 4 shapes -> exit 1 (2)", ["C11"]),
+ "C12b": ("C12", "relay network id keyed by source prototype instead of source entity", "two long same-colour connections from different sources of the same prototype routed near each other", "C12 quick exit 1 (55), C08 exit 1 (32)", ["C12", "C08"]),
+ "C13b": ("C13", "CSE key treats all compiler placeholders as one output type: identical untyped computations are merged while references keep their own placeholder", "the same untyped computation twice, the later copy consumed by a latch set/reset/value, an untyped memory or an entity enable", "C13 quick missed at first (C05 exit 1 (11)); after adding duplicated_untyped_value strata -> C13 exit 1 (19)", ["C13", "C05"]),
+ "C14b": ("C14", "`iterator_data.get('step') or 1`: a literal zero step silently becomes 1", "range loop with a literal step 0 (any spelling)", "C14 quick exit 1 (18)", ["C14"]),
+ "C15b": ("C15", "constant pre-folder falls through from a Signal-bound parameter to the caller's names", "Signal parameter named like a caller-visible compile-time int, combined with a constant in the body", "C15 quick missed at first; after adding signal_parameter_named_like_caller_int -> exit 1 (9)", ["C15"]),
+ "C16b": ("C16", "always-true guard dropped in the constant-condition fold: a constant-FALSE condition in front of a run-time value also passes the value", "`(i >= 2) : s` with a compile-time int (iterator, int variable) that makes the comparison false and a run-time s", "C16 quick missed at first (C10 exit 1 (2)); after adding iterator-condition bodies -> C16 exit 1 (19)", ["C16", "C10"]),
+ "C17b": ("C17", "same change as C15b, found independently: library functions misbehave when the user has an int named like a library parameter", "user `int x / a / b / t / value` next to a call of a math-library function", "C17 quick missed at first (C15 exit 1 (9)); after adding user ints named like library parameters -> C17 exit 1 (4)", ["C17", "C15"]),
+ "C18b": ("C18", "copper spanning tree uses the smallest wire reach of all poles for every pair", "--power-poles big|substation with a medium relay (or user pole) in the blueprint and two pole groups only joinable by a wire longer than 9 tiles", "C18 quick exit 1 (3: poles form 2-3 electric networks)", ["C18"]),
+ "C19b": ("C19", "physical MST hops overwrite the recorded colour of a logical edge with the same (entity, entity, signal) key", "a consumer reading one signal name from two producers, the first feeding the second and having fan-out >= 2; depends on which hops the layout's spanning tree contains", "C19 quick missed at first (C10 exit 1 (1)); after adding same_name_two_producers_fanout -> C19 exit 1 (2 of 6 programs differ between schedules)", ["C19", "C10"]),
+ "C20b": ("C20", "`return` instead of `continue` in _remap_named_refs: names declared after the first int variable are not re-pointed", "an int variable declared before a named result whose node the optimiser replaces (CSE duplicate or folded)", "C20 quick missed at first; after adding ints / duplicates / folded calls -> exit 1 (56)", ["C20"]),
+}
+for sid,(prop,what,needs,ran,checks) in M3.items():
+    d='/verif/seeded/%s'%sid
+    os.makedirs(d, exist_ok=True)
+    conf={}
+    try: conf=json.load(open(d+'/confirm.json'))
+    except Exception: pass
+    meta={"id":sid,"property":prop,"change":what,"needs_to_manifest":needs,
+          "produced_by":"fresh sub-agent given only the property text (with the hint to pick a deeper stage and a narrow trigger) and a scratch git worktree under /tmp",
+          "confirmed_by_me":{"demo_exit_with_change":conf.get("demo_with_change",{}).get("exit"),"demo_exit_without_change":conf.get("demo_without_change",{}).get("exit"),
+                             "repository_suite_with_change":(conf.get("suite_xdist",{}).get("last_line") or [None])[0], "suite_failures_confirmed_serially":conf.get("suite_failures_confirmed_serially")},
+          "checks_run":"git -C /repo apply patch.diff; ./check <id> --tier quick --no-evidence; git -C /repo checkout -- . (tools/try_mutant.py)",
+          "result":ran,"caught_by":checks}
+    json.dump(meta, open(d+'/meta.json','w'), indent=1)
+print(len(M3))
